@@ -554,6 +554,62 @@ def classify(req, impl_out, model_out, failure):
     return None
 
 
+def search(ctx, disagreements, bins):
+    """Violation search: the model no longer predicts the implementation on some inputs although the oracle was
+    content with them.  Put each disagreeing expression (and its rendering) into every parent slot, both bare
+    and parenthesised, and judge the real code with the oracle."""
+    hbin = bins.get((HARNESS["bin"], HARNESS.get("features", "default")))
+    if not hbin:
+        return None
+    if not disagreements:
+        # a proof obligation broke (e.g. the extracted parenthesisation table no longer equals the model's) and the
+        # streams were not run: judge the real code on the directed enumeration and the corpus
+        cands = directed_requests(full=False) + [s for s in CORPUS if py_tree(s) is not None
+                                                 and not finding_shapes(py_tree(s))]
+        reqs = [req(c) for c in cands]
+        outs = core.run_lines([hbin], reqs, jobs=8)
+        for r, o in zip(reqs, outs):
+            f = oracle(r, o)
+            if f:
+                return {"request": r, "impl": o, "failure": f, "stream": "violation-search",
+                        "source": unhex(r.split()[1]).decode("utf-8")}
+        return None
+    seeds = []
+    for d in disagreements[:40]:
+        try:
+            src = unhex(d["request"].split()[1]).decode("utf-8")
+        except Exception:
+            continue
+        seeds.append(src)
+        t = rendered_text(d.get("impl") or "")
+        if t:
+            seeds.append(t)
+    cands, seen = [], set()
+    for s in seeds:
+        if len(s) > 300:
+            continue
+        for _, tmpl in SLOTS:
+            for inner in ("(" + s + ")", s):
+                c = fill(tmpl, inner)
+                if c not in seen and py_tree(c) is not None and not finding_shapes(py_tree(c)):
+                    seen.add(c)
+                    cands.append(c)
+        for _, tmpl1 in SLOTS[::5]:
+            for _, tmpl2 in SLOTS[::7]:
+                c = fill(tmpl1, "(" + fill(tmpl2, "(" + s + ")") + ")")
+                if c not in seen and py_tree(c) is not None and not finding_shapes(py_tree(c)):
+                    seen.add(c)
+                    cands.append(c)
+    reqs = [req(c) for c in cands[:20000]]
+    outs = core.run_lines([hbin], reqs, jobs=8)
+    for r, o in zip(reqs, outs):
+        f = oracle(r, o)
+        if f:
+            return {"request": r, "impl": o, "failure": f, "stream": "violation-search",
+                    "source": unhex(r.split()[1]).decode("utf-8")}
+    return None
+
+
 # ------------------------------------------------------------------------------------------------ generators
 
 def req(src):
